@@ -105,6 +105,24 @@ def base_slice(F, b, t):
     return Slice(F, b, through_calls=True).operand(a["args"][0] if a is not None else t["args"][0])
 
 
+def family(F, f, depth=2):
+    """the function plus the methods of the same Self type it calls (a handle's read path may be split into private helpers)"""
+    st = self_type_of(F, f.id)
+    out, seen, todo = [f], {f.id}, [(f, 0)]
+    while todo:
+        g, d = todo.pop()
+        if d >= depth:
+            continue
+        for (_k, targets, _bid, _bi) in F.callees(g.id):
+            for tg in targets:
+                tb = F.bodies.get(tg)
+                if tb is not None and tb.id not in seen and st and self_type_of(F, tb.id) == st:
+                    seen.add(tb.id)
+                    out.append(tb)
+                    todo.append((tb, d + 1))
+    return out
+
+
 def run(ctx):
     F = ctx.F
     # ---------------------------------------------------------------- the aligned producers
@@ -123,12 +141,14 @@ def run(ctx):
     ctx.floor("C35-a", len(g), 1, "GrpcClient::get_multi_with_policy (inherent)")
     ctx.floor("C35-a", len(impls), 3, "StateMachine::get_multi impls (File, RocksDB) + trait default")
     n_aligned = 0
-    for f in prod:
+    for f0 in prod:
+      fam = family(F, f0) if f0.crate == "d_engine_server" else [f0]
+      cs_all = [(g, c) for g in fam for c in collects(F, g) if RESULT_VEC.search(c[4])]
+      ctx.floor("C35-a", len(cs_all), 1, "%s: collect producing Vec<Option<..>>" % fkey(f0))
+      for (f, (b, x, t, self_ty, fa)) in cs_all:
         kp = keys_position(F, f)
-        cs = [c for c in collects(F, f) if RESULT_VEC.search(c[4])]
-        ctx.floor("C35-a", len(cs), 1, "%s: collect producing Vec<Option<..>>" % fkey(f))
-        for (b, x, t, self_ty, fa) in cs:
-            key = "%s#collect" % fkey(f)
+        for _once in (1,):
+            key = "%s#collect" % fkey(f0)
             ctx.check("C35-a", key + "#shape", bool(ALIGNED.match(self_ty)), "collect over Map<slice::Iter<Bytes>, closure>: one result per key, in order",
                       "the per-key result vector is collected from `%s`, not from a plain map over the key slice: with keys [a,b,a] or a missing key the "
                       "results no longer line up with the request (length or order differs)" % re.sub(r"\{closure@[^{}]*\}", "{closure}", self_ty)[:200], loc(b, x))
@@ -148,7 +168,7 @@ def run(ctx):
             # ---------------------------------------------------- C35-b per-key closure = lookup by that key
             cb = closure_of(F, b, t)
             if cb is None:
-                ctx.bad("C35-b", "%s#closure" % fkey(f), "cannot resolve the per-key closure of the aligned map", loc(b, x))
+                ctx.bad("C35-b", "%s#closure" % fkey(f0), "cannot resolve the per-key closure of the aligned map", loc(b, x))
                 continue
             ret = Slice(F, cb, through_calls=True).place({"l": 0})
             looks = []
@@ -156,7 +176,7 @@ def run(ctx):
                 byk = any(any(z[0] == "param" and z[1] == 2 for z in Slice(F, cb, through_calls=True).operand(a).sources) for a in u["args"][1:])
                 if byk and u["dest"]["l"] in ret.seen:
                     looks.append(y)
-            ctx.check("C35-b", "%s#closure" % fkey(f), bool(looks) and not ret.consts(), "result i = lookup(key i)",
+            ctx.check("C35-b", "%s#closure" % fkey(f0), bool(looks) and not ret.consts(), "result i = lookup(key i)",
                       "the per-key closure does not return the lookup of its own key (lookups by the closure's key reaching the result: %d): result i is not "
                       "the value of keys[i]" % len(looks), "%s:%s" % (cb.file, cb.line))
     ctx.floor("C35-a", n_aligned, 6, "aligned result collects")
@@ -194,7 +214,8 @@ def run(ctx):
                           "the key list passed on is not the caller's list unchanged (adaptors %s)" % drops(s), loc(b, x))
     # request / command objects carry the whole key list
     n = 0
-    for f in [x for x in prod if x.crate in ("d_engine_server", "d_engine_client")] :
+    for f0 in [x for x in prod if x.crate in ("d_engine_server", "d_engine_client")]:
+      for f in (family(F, f0) if f0.crate == "d_engine_server" else [f0]):
         kp = keys_position(F, f)
         for b in F.group_bodies(f):
             for adt in ("ClientReadRequest", "ReadCmd"):
@@ -241,7 +262,8 @@ def run(ctx):
                   "ClientResult is not {key: zipped key, value: zipped value} (key from %s, value from %s)" % pair, "%s:%s" % (fp.file, fp.line))
     # realignment maps are keyed by the entry's key
     n = 0
-    for f in prod:
+    for f0 in prod:
+      for f in (family(F, f0) if f0.crate == "d_engine_server" else [f0]):
         for (b, x, t, self_ty, fa) in collects(F, f):
             if "collect::<std::collections::hash::map::HashMap<bytes::bytes::Bytes" not in fa:
                 continue
